@@ -97,16 +97,27 @@ let run_case (line : string) : string =
       | ["E"; k] -> evs := !evs @ [`E (Stdlib.List.assoc k kinds)]
       | ["Z"; t] -> hang := (t = "hang")
       | ["G"] -> evs := !evs @ [`G]
+      | ["H"; k] -> evs := !evs @ [`H (int_of_string k)]
+      | ["L"] -> evs := !evs @ [`L]
       | [] -> ()
       | _ -> failwith ("bad op: " ^ s)) (split_on ';' line);
-  let flat = Array.of_list (Stdlib.List.concat_map (function `B l -> Stdlib.List.map (fun b -> Some b) l | `E _ -> [None] | `G -> []) !evs) in
+  let flat = Array.of_list (Stdlib.List.concat_map (function `B l -> Stdlib.List.map (fun b -> Some b) l | `E _ -> [None] | `G | `H _ | `L -> []) !evs) in
   if declares_huge flat then "HUGE" else begin
-    let mevs = Stdlib.List.concat_map (function `B l -> Stdlib.List.map (fun b -> EByte (n b)) l | `E k -> [EErr k] | `G -> []) !evs in
+    let mevs = Stdlib.List.concat_map (function `B l -> Stdlib.List.map (fun b -> EByte (n b)) l | `E k -> [EErr k] | `G | `H _ | `L -> []) !evs in
     (* where the HTTP client asks: after how many read events *)
     let gets =
       let k = ref 0 and acc = ref [] in
-      Stdlib.List.iter (function `B l -> k := !k + Stdlib.List.length l | `E _ -> incr k | `G -> acc := !k :: !acc) !evs;
+      Stdlib.List.iter (function `B l -> k := !k + Stdlib.List.length l | `E _ -> incr k | `G -> acc := !k :: !acc | `H _ | `L -> ()) !evs;
       Stdlib.List.rev !acc in
+    (* `H m` / `L` placed after k read events: (k, m) / k *)
+    let holds, locks =
+      let k = ref 0 and hs = ref [] and ls = ref [] in
+      Stdlib.List.iter (function `B l -> k := !k + Stdlib.List.length l | `E _ -> incr k | `G -> ()
+                                | `H m -> hs := (!k, m) :: !hs | `L -> ls := !k :: !ls) !evs;
+      Stdlib.List.rev !hs, Stdlib.List.rev !ls in
+    if Stdlib.List.length holds > 1 || Stdlib.List.length locks > 1 then failwith "at most one H and one L per case";
+    if (holds <> [] || locks <> []) && gets <> [] then failwith "G is not combined with H or L";
+    if holds <> [] && locks <> [] then failwith "H and L are not combined";
     let parse fr = if !full then (match Stdlib.List.assoc_opt (hex_of fr) !table with
                                   | Some d when d <> "y" ->
                                       (* BmpStreamModel.parse_types_ok: what routecore's from_octets guarantees, and what every
@@ -181,11 +192,41 @@ let run_case (line : string) : string =
                 let rec asc = function a :: (b :: _ as r) -> a < b && asc r | _ -> true in
                 Printf.sprintf "g:L200,I200,m1,e%d,o%d" (Stdlib.List.length ids) (if asc ids then 1 else 0)
               end else "g:L200,I200,m1")) gets in
+    (* the receiving end holds for an hour (BmpStreamModel.hold_index / waits_of / received): what it has got once the
+       task has returned, and which update it sat on. The reader gets to an `H` / `L` as it gets to a `G`. *)
+    let hour = n 3600000 in
+    let reached e pos k = k < pos || (k = pos && (e = EndEof || e = EndTerm)) in
+    let hold_idx e pos =
+      match holds with
+      | [] -> None
+      | (k, m) :: _ ->
+          let idx = hold_index parse rid mevs { h_pos = nat_of_int k; h_more = nat_of_int m; h_for = hour } s0 in
+          (match idx, reached e pos k with
+           | None, true -> failwith "hold_index: session over, but the reader is asked again"
+           | Some _, false -> failwith "hold_index: session alive, but the reader is not asked again"
+           | _ -> ());
+          idx in
+    let hold_tokens idx out =
+      match holds with
+      | [] -> []
+      (* shape mode: which update is held depends on what the frames say, which the rejecting parser does not know *)
+      | _ when not !full -> ["*"]
+      | _ ->
+          let held = match idx with None -> None | Some i -> Stdlib.List.nth_opt out (int_of_nat i) in
+          (match held with
+           | Some g ->
+               if int_of_n (finished_at (waits_of idx hour) out) <> 3600000 then failwith "finished_at: the task returned before the hour was over";
+               ["h:" ^ kind_char g]
+           | None -> ["h:-"]) in
+    let lock_tokens e pos = Stdlib.List.map (fun k -> if reached e pos k then "lk:1" else "lk:0") locks in
     match res with
-    | Done (e, rest, s, out) ->
+    | Done (e, rest, s, out0) ->
+        let pos0 = total - Stdlib.List.length rest in
+        let idx = hold_idx e pos0 in
+        let out = received (waits_of idx hour) out0 in
         let en = match e with EndEof -> "eof" | EndErr k -> "e-" ^ kind_name k | EndShort -> "bytes" | EndTerm -> "hang" in
         let pos = total - Stdlib.List.length rest in
-        join " " ([ "end:" ^ en; Printf.sprintf "pos:%d" pos ] @ shape_tokens out @ [final_token res] @ get_tokens e pos @ full_tokens s out)
+        join " " ([ "end:" ^ en; Printf.sprintf "pos:%d" pos ] @ shape_tokens out @ [final_token res] @ get_tokens e pos @ hold_tokens idx out0 @ lock_tokens e pos @ full_tokens s out)
     | Panic (_, rest, s) ->
         join " " ([ "PANIC"; "end:bytes"; Printf.sprintf "pos:%d" (total - Stdlib.List.length rest) ] @ shape_tokens s.s_out @ [final_token res] @ full_tokens s s.s_out)
     | OutOfFuel -> "WEDGE"
